@@ -1185,9 +1185,14 @@ class C12(Property):
                              self._sscript_tok_observed(case, 'sscript')] +
                             [tok(i, side, op) for i, (side, op) in enumerate(case['ops'])])
         if k == 'ns':
+            woffs = self._hints_for(case).get('woffs', [])
+
+            def ptok(i, p):
+                offs = woffs[i] if i < len(woffs) else []
+                return '@'.join([p] + ['.'.join(map(str, o)) if o else '_' for o in offs])
             return ' '.join(['ns', str(case['ms']), self._sscript_tok(case['wscript']),
                              ','.join(map(str, case['cuts'])) or '-', str(case['nreads']), self._rcfg_tok(case)]
-                            + case['payloads'])
+                            + [ptok(i, p) for i, p in enumerate(case['payloads'])])
         if k == 'nsr':
             return ' '.join(['nsr', self._rcfg_tok(case), self._script_tok(case['script']), str(case['nreads'])] +
                             list(self._hints_for(case).get('splits', ())))
@@ -1456,25 +1461,45 @@ class C12(Property):
         w.bsock.settimeout(None)
         bound = 1 + sum(1 for e in case['wscript'] if e == 'T')
         wres = []
-        for p in case['payloads']:
+        woffs = []          # per payload: the offers of the write_ns call, then of each flush after it ('_' = whole)
+
+        def pend():
             try:
-                w.write_ns(unhx(p))
+                return len(bytes(w.bsock.getsendbuffer()))
+            except Exception:
+                return 0
+        for p in case['payloads']:
+            offs = []
+            pb = unhx(p)
+            n0 = len(fw.sends)
+            pend0 = pend() + (len(str(len(pb))) + 2 + len(pb) if len(pb) <= case['ms'] else 0)
+            try:
+                w.write_ns(pb)
                 wres.append('ok')
+                offs.append(self._offers(fw, n0, pend0))
             except CaseTimeout:
                 raise
             except Exception as e:
+                offs.append(self._offers(fw, n0, pend0))
                 r = EXC.get(exc_name(e), 'exc:' + exc_name(e))
                 if r == 'timeout':
                     for _ in range(bound):
+                        n0, pend0 = len(fw.sends), pend()
                         try:
                             w.bsock.flush()
                             r += '+flushed'
+                            offs.append(self._offers(fw, n0, pend0))
                             break
                         except CaseTimeout:
                             raise
                         except Exception as e2:
+                            offs.append(self._offers(fw, n0, pend0))
                             r += '+' + EXC.get(exc_name(e2), 'exc:' + exc_name(e2))
                 wres.append(r)
+            woffs.append(offs if any(offs) else [])
+        h = self._hint(case)
+        h['ran'] = True
+        h['woffs'] = woffs
         wire = fw.wire
         fr = FakeSock(cut(wire, case['cuts']))
         rd, kw = self._mk_ns(fr, case)
